@@ -311,6 +311,14 @@ Definition wf_tree (t : tree) : bool := sorted_names (map n_name t) && forallb w
 
 (* ------------------------------------------------------------------ TreeModifier *)
 
+(* Vec::sort_by(|a, b| a.name().cmp(&b.name())): stable sort by name (insertion sort) *)
+Fixpoint insert_node (n : node) (l : tree) : tree :=
+  match l with
+  | [] => [n]
+  | x :: r => if n_name n <=? n_name x then n :: l else x :: insert_node n r
+  end.
+Definition sort_tree (t : tree) : tree := fold_right insert_node [] t.
+
 Inductive change := Removed | Changed (t : tree) | Unchanged.
 Inductive action :=
 | ANode (n : node) (changed : bool)        (* NodeAction::Node *)
@@ -335,10 +343,13 @@ Section Modifier.
           (match x' with Some y => y :: r' | None => r' end, cx || cr)
       end.
 
-  (* the tail of modify_tree: `if changed { save; (new_id != id).then_some(new_id) } else None` *)
+  (* the tail of modify_tree: `if changed { new_tree.nodes.sort_by(name); save; (new_id != id).then_some(new_id) }
+     else None` — the sort keeps a tree in name order when a visitor renamed nodes (repair's marker suffix);
+     whether the source has it is read by extract.py (Extracted.modifier_sorts_changed_trees) *)
   Definition finish (rd : bool) (old : tree) (res : tree * bool) : change :=
     let '(nt, ch) := if rd then res else ([], true) in
-    if ch && negb (tree_eqb nt old) then Changed nt else Unchanged.
+    let st := if modifier_sorts_changed_trees then sort_tree nt else nt in
+    if ch && negb (tree_eqb st old) then Changed st else Unchanged.
 
   (* one iteration of the `for node in tree` loop, including the recursive modify_tree *)
   Fixpoint modify_node (path : list N) (n : node) {struct n} : option node * bool :=
@@ -379,9 +390,14 @@ Section Rewrite.
     else let '(n', ch) := modn n in
          match n_kind n' with KDir => AVisit n' ch | _ => ANode n' ch end.
 
-  (* Rewriter::rewrite_tree *)
+  (* Rewriter::rewrite_tree: the nameless root (empty path) is not matched against the globs
+     (Extracted.rewrite_root_is_matched = false, read from the source) *)
   Definition rewrite_tree (path : list N) (t : tree) : change :=
-    if excl path true then Removed else modify_tree rw_visit (fun _ => true) path t.
+    match path with
+    | [] => if rewrite_root_is_matched && excl path true then Removed
+            else modify_tree rw_visit (fun _ => true) path t
+    | _ => if excl path true then Removed else modify_tree rw_visit (fun _ => true) path t
+    end.
 End Rewrite.
 
 (* ------------------------------------------------------------------ repair *)
